@@ -13,6 +13,7 @@ A case is {"ops": [[kind, ...], ...]}; values are JSON null / int / str:
   ["setValue", v] ["getValue"] ["update", pairs, form] ["change", pairs, form] ["create", pairs, form]
   ["stampNow"] ["setItem", k, v] ["getItem", k] ["delItem", k] ["contains", k] ["get", k]
   ["keys"] ["items"] ["values"] ["len"] ["pop", k] ["popitem"] ["setdefault", k, v] ["clear"]
+  ["insert", index, k, v]
   ["push", v] ["pull"] ["gulp", v] ["spew"] ["setClock", i, t|null] ["attach", i|null]
 `form` in "list" (sequence of duples), "dict", "kw" (keyword arguments); stamps are in units of 1/8 s.
 """
@@ -55,7 +56,7 @@ class CHECK(core.Check):
     N_SEARCH = 800
     RULE = ("histories of 1..60 operations on one Share: value/update/change/create (as duple list, dict or "
             "keywords, with duplicate and existing keys), item set/get/del/contains/get, keys/items/values/len, "
-            "pop/popitem/setdefault/clear, deck push/pull/gulp/spew (with None), stamp changes of two stores "
+            "pop/popitem/setdefault/clear/insert (any index), deck push/pull/gulp/spew (with None), stamp changes of two stores "
             "(including None) and attach/detach; field names from a small pool of public names, plus (in ~25% of "
             "the cases) rejected names: leading underscore, digit first, '', spaces, punctuation, trailing newline, "
             "and (~10%) class attribute names of Data; non-trivial = a stamping operation with a store attached, "
@@ -63,20 +64,21 @@ class CHECK(core.Check):
     TRUSTED = ["correspondence: storing.Share/Data/Deck run in-process against the Lean model (driver engine "
                "'share'); compared after every operation: result, stamp, keys(), items(), list(deck), len()",
                "the model describes storing.py WITH fixes/D11b-data-delattr-keeps-odict-keys.patch, "
-               "fixes/D11c-identpub-fullmatch.patch and fixes/D11d-share-setdefault-name-rule.patch applied",
+               "fixes/D11c-identpub-fullmatch.patch, fixes/D11d-share-setdefault-name-rule.patch and "
+               "fixes/D11f-share-insert-name-rule.patch applied",
                "CPython attribute machinery (object.__getattribute__/__setattr__/__delattr__ on an instance "
                "whose __dict__ is an odict), the 30 names of dir(Data()) on CPython 3.12, re, deque",
                "stamps are multiples of 1/8 s (exact in binary64); field names are ASCII"]
     PARTIAL = ["C19_field_names_public_partial: holds for histories that never name a class attribute of Data "
                "(D11: share['_sift']=5 is accepted, bypasses keys())",
                "C19_spew_none_iff_empty_partial: holds while no None was put on the deck with push (D11e)",
-               "not modelled: non-ASCII field names (Python's \\w is Unicode), del share['__dict__'], Share.insert/"
+               "not modelled: non-ASCII field names (Python's \\w is Unicode), del share['__dict__'], Share."
                "sift/reorder/copy, truth/unit/owner/marks, values other than None/int/str"]
     TECHNIQUE = ("Lean 4 theorems (invariants over histories, refinement of the two-layer Data to an "
                  "insertion-ordered map) + differential correspondence after every step")
     LEVEL_TEXT = ("Proof on the model, every history: stamping rules (C19_value_update_stamp, C19_change_keeps_stamp, "
                   "C19_create_stamps_iff_added, C19_create_never_overwrites, C19_only_stampers_stamp), fields as an "
-                  "insertion-ordered map (C19_fields_ordered_map_*, invariant C19_sync_invariant: items() never "
+                  "insertion-ordered map (C19_fields_ordered_map_* incl. positional insert, invariant C19_sync_invariant: items() never "
                   "raises), names shown by keys()/items() are public identifiers for EVERY history (C19_keys_public); "
                   "deck FIFO (C19_deck_fifo), gulp ignores None (C19_gulp_ignores_none). Partial: every accepted "
                   "field name is public only for histories that avoid Data's class attribute names "
@@ -143,8 +145,9 @@ class CHECK(core.Check):
                 elif r < 0.68: ops.append(["pop", k])
                 elif r < 0.70: ops.append(["popitem"])
                 elif r < 0.73: ops.append(["setdefault", k, v])
-                elif r < 0.74: ops.append(["clear"])
-                elif r < 0.79: ops.append(["push", None if (push_none and rng.random() < 0.4) else (0 if v is None else v)])
+                elif r < 0.735: ops.append(["clear"])
+                elif r < 0.76: ops.append(["insert", rng.choice([0, 0, 1, 2, -1, -2, -9, 9]), k, v])
+                elif r < 0.80: ops.append(["push", None if (push_none and rng.random() < 0.4) else (0 if v is None else v)])
                 elif r < 0.82: ops.append(["pull"])
                 elif r < 0.87: ops.append(["gulp", v])
                 elif r < 0.92: ops.append(["spew"])
@@ -262,6 +265,8 @@ class CHECK(core.Check):
                     r = "v:" + self._show_val(sh.setdefault(op[1], op[2]))
                 elif k == "clear":
                     sh.clear(); r = "unit"
+                elif k == "insert":
+                    sh.insert(op[1], op[2], op[3]); r = "unit"
                 elif k == "push":
                     sh.push(op[1]); r = "unit"
                 elif k == "pull":
@@ -307,6 +312,8 @@ class CHECK(core.Check):
                 reqs.append("%s %s %s" % (k, hx(op[1]), self._venc(op[2])))
             elif k in ("getItem", "delItem", "contains", "get", "pop"):
                 reqs.append("%s %s" % (k, hx(op[1])))
+            elif k == "insert":
+                reqs.append("insert %d %s %s" % (op[1], hx(op[2]), self._venc(op[3])))
             elif k == "setClock":
                 reqs.append("setClock %d %s" % (0 if op[1] == 0 else 1, "n" if op[2] is None else "%d" % op[2]))
             elif k == "attach":
@@ -443,6 +450,27 @@ class CHECK(core.Check):
                     return "other", where + "popitem on an empty share did not raise KeyError"
             elif k == "clear":
                 F.clear(); expect_res = "unit"; d11 = False
+            elif k == "insert":
+                idx, kk, vv = op[1], op[2], op[3]
+                if not is_public(kk):
+                    if not err:
+                        msg = where + "field name %r is not a public identifier but was accepted" % (kk,)
+                        if is_ca(kk) and o_keys == self._keys(F):
+                            known.append(msg); d11 = True
+                        else:
+                            return "other", msg
+                elif kk in F:
+                    if res != "ERR KeyError":
+                        return "other", where + "inserting an existing key did not raise KeyError"
+                elif err:
+                    return "other", where + "raised for a new public field name"
+                else:
+                    items = list(F.items())
+                    lst = list(range(len(items)))
+                    lst.insert(idx, None)                     # where Python's list.insert puts it
+                    n = lst.index(None)
+                    F = collections.OrderedDict(items[:n] + [(kk, vv)] + items[n:])
+                    expect_res = "unit"
             elif k == "keys":
                 expect_res = "k:" + self._keys(F)
             elif k == "items":
@@ -557,6 +585,8 @@ class CHECK(core.Check):
                 names += [p[0] for p in op[1]]
             elif op[0] in ("setItem", "getItem", "delItem", "contains", "get", "pop", "setdefault"):
                 names.append(op[1])
+            elif op[0] == "insert":
+                names.append(op[2])
         kind = "classattr" if any(n in CLASS_ATTRS for n in names) else \
             "badnames" if any(not is_public(n) for n in names) else "publicnames"
         pn = any(op[0] == "push" and op[1] is None for op in ops)
